@@ -228,12 +228,13 @@ Section LossyPipe.
   Variable str_ltb : string -> string -> bool.
   Variable idfun : option (string -> string).
   Variable v0 : bool.
+  Variable v1 : bool.
   Variable prog : list (call M writer rmask).
   (* which subscriber threads are without backpressure, and over which id (PullID) *)
   Variable lossy_of : nat -> option (option string).
 
   Notation state := (state M rmask).
-  Notation step := (step m_eqb m_empty w_validate w_merge clock_at str_ltb idfun v0 prog).
+  Notation step := (step m_eqb m_empty w_validate w_merge clock_at str_ltb idfun v0 v1 prog).
 
   Inductive sstep := SThread (t : nat) | SRecv (t : nat).
 
